@@ -15,7 +15,7 @@ LEVEL_TEXT = ('Lean 4 theorems, for all shapes/offsets/data and any number of ov
               'amplitude*exp(2 pi i opd/lambda) inside the mask and by 0 outside, for scalar/array amplitude, OPD and mask in every '
               'combination (explicit Complex.exp for any segment list and for scalar masks); wavelength is handed over unchanged, the focal length passes through a plane unchanged when truthy and becomes inf when None/0 (generated Wavefront.__init__ rule), a Pupil hands over its focal length, along any chain of Plane/Pupil/Image steps the wavelength never changes and every phasor uses that wavelength (chain_keeps_wavelength), the plane with default attributes returns the very same wavefront (default_plane_changes_nothing; one-element fields: default_plane_identity), '
               '_mul_pixelscale (regenerated from plane.py on every run) refuses exactly the defined-and-different pairs, independently of the unit of length; the phase argument, the metadata hand-over of Plane/Pupil/Image.multiply and the wiring of the three views (which goes through reduce, intensity flag, weight) are regenerated from the source and consumed by the model; insert/intensity always return (C06 reduce_defined). The array plumbing '
-              'is a hand model checked against the implementation on exact and floating-point data; its per-segment phasor is proved equal, sample by sample, to the loop body regenerated from plane.py:456-467 (Gen/PlaneLoop: loop_body_is_segPhasor, loop_mask_and_keep); the model of Wavefront.insert uses field.insert\'s default weight 1 where the regenerated wiring does not pass weight=weight, so the flag decides the value (wavefront_insert_uses_weight, wfInsert_eq: a source that drops the keyword breaks them and wavefront_insert_weight); Plane.shape, Plane.size and the ndim dispatch of _plane_slice are regenerated (Gen/PlaneGeom) and proved to give the model\'s shape, segment count and one bounding slice per layer for 0-d, 2-D and 3-D masks with any number of layers incl. one (plane_geometry_matches_model).')
+              'is a hand model checked against the implementation on exact and floating-point data; its per-segment phasor is proved equal, sample by sample, to the loop body regenerated from plane.py:456-467 (Gen/PlaneLoop: loop_body_is_segPhasor, loop_mask_and_keep; the res.size > 0 guard keeps exactly the products the filterMap of the model keeps: loop_keep_matches_filterMap, plane_multiply_keeps_nonempty); the model of Wavefront.insert uses field.insert\'s default weight 1 where the regenerated wiring does not pass weight=weight, so the flag decides the value (wavefront_insert_uses_weight, wfInsert_eq: a source that drops the keyword breaks them and wavefront_insert_weight); Plane.shape, Plane.size and the ndim dispatch of _plane_slice are regenerated (Gen/PlaneGeom) and proved to give the model\'s shape, segment count and one bounding slice per layer for 0-d, 2-D and 3-D masks with any number of layers incl. one (plane_geometry_matches_model).')
 LEVEL_NOTE = ('Partial: (1) fields/segments with exactly one element are excluded by hypothesis (lentil treats every size-1 array as a '
               'broadcastable scalar; open known finding KF-C07-one-pixel-segment, which includes one-sample fields off centre under a default plane; not repaired because C06 as given makes a (1,1) array a broadcastable constant: the two properties conflict on that input and the code follows C06); '
               '(2) chains that interleave planes and propagations are covered step by step by theorems and as a whole by correspondence and oracle only; '
